@@ -40,10 +40,19 @@ def tree(draw):
         p = draw(D.dir_pel(e, selectable=draw(st.booleans()) or None, plid=0x50000001))
         pels.append(p)
         style = draw(st.sampled_from(['bmc', 'bmc', 'plain', 'ext']))
+        if i == 0:
+            # the first PEL is the preferred target of -i / --bmc-id / -d: its name carries its id, it is
+            # displayable and has the BMC id the commands ask for
+            style = draw(st.sampled_from(['bmc', 'ext']))
+            p['ph']['obmc'] = 4660
+            if draw(st.integers(0, 3)) != 0:
+                p['uh']['sev'], p['uh']['flags'] = 0x40, 0xA800
         name = {'bmc': '%016d_%08X' % (1718273645091827 + i, e), 'plain': 'pel%02d' % i,
                 'ext': 'log_%08X.pel' % e}[style]
         files[name] = M.encode(p)
-    target = draw(st.one_of(st.sampled_from(eids) if eids else st.just(0x50000001), st.just(0x50000001)))
+    target = draw(st.one_of(st.sampled_from(eids) if eids else st.just(0x50000001), st.just(0x50000001),
+                            st.just(eids[0]) if eids else st.just(0x50000001),
+                            st.just(eids[0]) if eids else st.just(0x50000001)))
     tid = '%08X' % target
     # more names that contain the target id, and junk
     for k in range(draw(st.integers(0, 2))):
@@ -84,7 +93,7 @@ def command(draw):
         c['sel'] = draw(D.selection())
         c['ext'] = draw(st.sampled_from([None, None, '.pel']))
         # --clean is only meaningful with --json / --file; every other mode must stay read-only with it
-        c['clean'] = c['mode'] != '-f' and draw(st.integers(0, 2)) == 0
+        c['clean'] = c['mode'] != '-f' and draw(st.integers(0, 1 if c['mode'] in ('-i', '--bmc-id') else 2)) == 0
     elif kind == 'json':
         c['out'] = draw(st.sampled_from(['same', 'inside', 'outside', 'none', 'missing']))
         c['clean'] = draw(st.integers(0, 2)) == 0
